@@ -174,6 +174,16 @@ CANON = ("FLAG", "HAS", "INT[", "EXCL[", "∃EXCL[", "INSCAN[")
 NAME_RELATIONAL = ("STR[", "EQ[", "P<", "CMP[")
 
 
+def shape_only(a: str, sym: str) -> bool:
+    """The atom looks at the name of `sym` only through the number of its components / characters (`e.count('.')`,
+    `len(e.split('.'))`, `len(e)`): such a test cannot be the internal test written out a second time - that one compares text."""
+    import re
+
+    s_ = re.escape(sym)
+    rest = re.sub(rf"len\({s_}\.r?split\([^()]*\)\)|{s_}\.count\([^()]*\)|len\({s_}\)", "#", a)
+    return rest != a and not M.mentions(rest, sym)
+
+
 def is_canonical(a: str) -> bool:
     return a in ("FLAG", "HAS") or a.startswith(CANON[2:])
 
@@ -246,7 +256,7 @@ def tri(it: M.Interp, premise: Formula, conclusion: Formula) -> tuple[str, "dict
     # a test on the element's name in a spelling the model does not know may be the internal test written out a second time
     int_atom = atom(f"INT[{E}]")
     for a in sorted(names_):
-        if a.startswith(NAME_RELATIONAL) and M.mentions(a, E) and M.valid(M.subst_atom(premise, a, int_atom), M.subst_atom(conclusion, a, int_atom), cons):
+        if a.startswith(NAME_RELATIONAL) and M.mentions(a, E) and not shape_only(a, E) and M.valid(M.subst_atom(premise, a, int_atom), M.subst_atom(conclusion, a, int_atom), cons):
             return "undecided", {a: True}
     # (facts about a whole collection - `∃EXCL[•1]`: some name of it matches - are related to the facts about one element in
     # ways the model does not know: soft)
@@ -740,7 +750,7 @@ def check_sink(repo: Repo, res: Result, it: M.Interp, s: M.Sink, walk_ok: "bool 
         # a test on the name in a spelling the model does not know may be the internal test written out a second time: if the
         # dependence disappears once it is assumed to hold, the verdict hinges on what that test means (F-NAME, R2, judges it)
         for a in sorted(atoms_of(k)):
-            if a.startswith(NAME_RELATIONAL) and M.mentions(a, E) and depends_on_options(it, k, {**assume, a: True}) is None:
+            if a.startswith(NAME_RELATIONAL) and M.mentions(a, E) and not shape_only(a, E) and depends_on_options(it, k, {**assume, a: True}) is None:
                 res.undecide("C10.R1", sink_key + f" [{what}]", f"the retention of an internal element, `{show(k)}`, is independent of the external options only if `{a}` holds for internal elements: a test on the name that is not the recognised internal test decides here", sink_where)
                 return
         unknown = not_understood(it, k)
@@ -750,7 +760,11 @@ def check_sink(repo: Repo, res: Result, it: M.Interp, s: M.Sink, walk_ok: "bool 
         # name the filters without which the dependence disappears
         named = False
         base_ok = scanned if what == "modules" else any_base
+        seen_nodes: set[int] = set()
         for p in fparts:
+            if id(p.node) in seen_nodes:
+                continue  # a copy of a filter already judged (the same statement reached on another path)
+            seen_nodes.add(id(p.node))
             k_wo = M.retention(transparent(c, p), E, base_ok)
             if depends_on_options(it, k_wo, assume) is None:
                 named = True
